@@ -29,7 +29,7 @@ ASSUMPTIONS = ["numpy interpreter vf/sg.py (operator semantics transcribed from 
 
 def plan(tier, seed):
     st = explore.Stats()
-    items, fam = sggen.enumerate_plan(tier, st)
+    items, fam = sggen.enumerate_plan(tier, st, with_rename=True)
     d = st.as_dict()
     d["exhaustive"] = not st.capped
     d["dimensions"] = {k: len(v) for k, v in st.dim_hist.items()}
